@@ -44,3 +44,17 @@ pub assume_specification<T, A: core::alloc::Allocator>[Vec::<T, A>::into_boxed_s
 
 pub assume_specification<T>[core::mem::replace::<T>](dest: &mut T, src: T) -> (r: T)
     ensures r == *old(dest), *final(dest) == src;
+
+/// the items an `IntoIterator` value will produce, in order (uninterpreted; collect/from_iter
+/// contracts are stated against it)
+pub uninterp spec fn iter_items<I: IntoIterator>(it: I) -> Seq<I::Item>;
+
+pub assume_specification<T, A: core::alloc::Allocator, F: FnMut() -> T>[Vec::<T, A>::resize_with](v: &mut Vec<T, A>, new_len: usize, f: F)
+    requires
+        new_len <= old(v)@.len() || (forall|u: ()| #[trigger] f.requires(u)),
+        //@ [c18.resize_may_allocate: C18]
+        new_len <= old(v)@.len() || may_allocate(),
+    ensures
+        final(v)@.len() == new_len,
+        forall|i: int| 0 <= i < new_len && i < old(v)@.len() ==> #[trigger] final(v)@[i] == old(v)@[i],
+        forall|i: int| old(v)@.len() <= i < new_len ==> f.ensures((), #[trigger] final(v)@[i]);
